@@ -41,9 +41,41 @@ class TermContract:
 
     toqito_names = set(["is_positive_semidefinite", "is_ppt"])
 
+    _index = None
+
+    def bind_callee(self, eng, name, args, kw_terms, kws):
+        """toqito callees are applied by PARAMETER NAME (bound through the callee's real signature, re-read from the repository):
+        `f(x, t)` and `f(x, atol=t)` are different terms unless t lands on the same parameter."""
+        if name not in TOQITO_RET:
+            return NotImplemented
+        from vt.frame import Index
+        from vt.pyvc.termvc import const_repr, is_z3
+
+        if TermContract._index is None:
+            TermContract._index = Index()
+        ent = TermContract._index.funcs.get(name)
+        if ent is None:
+            return NotImplemented
+        params = [a.arg for a in ent[1].args.args]
+        bound = []
+        consts = list(kws)
+        for pname, a in zip(params, args):
+            if is_z3(a):
+                bound.append((pname, [a]))
+            elif isinstance(a, (list, tuple)) and any(is_z3(x) for x in a):
+                bound.append((pname + ":list%d" % len(a), list(a)))
+            else:
+                c = const_repr(a)
+                if c is None:
+                    return NotImplemented
+                consts.append("%s=%s" % (pname, c))
+        for pname, v in kw_terms:
+            bound.append((pname, [v]))
+        bound.sort(key=lambda t: t[0])
+        uname = "toqito.%s(%s)%s" % (name, ",".join(n for n, _ in bound), "[" + ",".join(sorted(consts)) + "]" if consts else "")
+        return uf(uname, TOQITO_RET[name], *[x for _, xs in bound for x in xs])
+
     def callee(self, eng, name, full, args):
-        if name in TOQITO_RET:
-            return uf("toqito." + full, TOQITO_RET[name], *args)
         return NotImplemented
 
     def post(self, eng, value, env):
@@ -57,6 +89,26 @@ class TermContract:
         if v.sort() != exp.sort():
             return [("result has the sort of the specification (%s)" % exp.sort(), False)]
         return [(self.text, v == exp)]
+
+
+def tq(name, ret, consts=(), **named):
+    """spec-side application of a toqito callee by parameter name (mirrors TermContract.bind_callee)"""
+    items = sorted(named.items())
+    names = []
+    args = []
+    for k, v in items:
+        if isinstance(v, (list, tuple)):
+            names.append("%s:list%d" % (k, len(v)))
+            args += list(v)
+        else:
+            names.append(k)
+            args.append(v)
+    uname = "toqito.%s(%s)%s" % (name, ",".join(sorted(names)), "[" + ",".join(sorted(consts)) + "]" if consts else "")
+    order = sorted(range(len(names)), key=lambda i: names[i])
+    flat = []
+    for k, v in sorted(((n, v) for n, (kk, v) in zip(names, items)), key=lambda t: t[0]):
+        flat += list(v) if isinstance(v, (list, tuple)) else [v]
+    return uf(uname, ret, *flat)
 
 
 def sub(a, b):
@@ -80,11 +132,11 @@ def sqrt(a):
 
 
 def tn(a):
-    return uf("toqito.trace_norm", R, a)
+    return tq("trace_norm", R, rho=a)
 
 
 def fid(a, b):
-    return uf("toqito.fidelity", R, a, b)
+    return tq("fidelity", R, rho=a, sigma=b)
 
 
 def rnd(a, dec):
@@ -109,12 +161,12 @@ CONTRACTS = {
                  "fidelity == Re Tr sqrt( sqrt(rho) sigma sqrt(rho) )  (root fidelity, as documented)"),
     "hilbert_schmidt_inner_product": ("toqito/state_metrics/hilbert_schmidt_inner_product.py", [("a_mat", "arr"), ("b_mat", "arr")], [], lambda e: tr(mm(uf("transpose", Arr, uf("conj", Arr, e["a_mat"])), e["b_mat"])), "<A, B> == Tr(A^dagger B)"),
     "is_ppt": ("toqito/state_props/is_ppt.py", [("mat", "arr"), ("sys", "real"), ("dim", "arr"), ("tol", "real")], ["not dim is None", "not tol is None"],
-               lambda e: uf("toqito.is_positive_semidefinite", z3.BoolSort(), uf("toqito.partial_transpose[list1]", Arr, e["mat"], e["sys"] - 1, e["dim"]), e["tol"]),
-               "is_ppt(mat, sys, dim, tol) == is_positive_semidefinite(partial_transpose(mat, [sys - 1], dim), tol)  (sys is 1-indexed, partial_transpose 0-indexed)"),
+               lambda e: tq("is_positive_semidefinite", z3.BoolSort(), mat=tq("partial_transpose", Arr, rho=e["mat"], sys=[e["sys"] - 1], dim=e["dim"]), atol=e["tol"]),
+               "is_ppt(mat, sys, dim, tol) == is_positive_semidefinite(partial_transpose(mat, [sys - 1], dim), atol=tol): the tolerance bounds the eigenvalues (sys is 1-indexed, partial_transpose 0-indexed)"),
     "is_npt": ("toqito/state_props/is_npt.py", [("mat", "arr"), ("sys", "real"), ("dim", "arr"), ("tol", "real")], [],
-               lambda e: z3.Not(uf("toqito.is_ppt", z3.BoolSort(), e["mat"], e["sys"], e["dim"], e["tol"])), "is_npt == not is_ppt (same arguments)"),
+               lambda e: z3.Not(tq("is_ppt", z3.BoolSort(), mat=e["mat"], sys=e["sys"], dim=e["dim"], tol=e["tol"])), "is_npt == not is_ppt (same arguments, bound to the same parameters)"),
     "l1_norm_coherence": ("toqito/state_props/l1_norm_coherence.py", [("rho", "arr")], [],
-                          lambda e: uf("np.sum", R, uf("np.sum", R, uf("np.abs", Arr, uf("toqito.to_density_matrix", Arr, e["rho"])))) - tr(uf("toqito.to_density_matrix", Arr, e["rho"])),
+                          lambda e: uf("np.sum", R, uf("np.sum", R, uf("np.abs", Arr, tq("to_density_matrix", Arr, input_array=e["rho"])))) - tr(tq("to_density_matrix", Arr, input_array=e["rho"])),
                           "l1_norm_coherence == sum of |entries| of the density matrix minus its trace (= sum of off-diagonal moduli for a density matrix)"),
     "purity": ("toqito/state_props/purity.py", [("rho", "arr")], ["is_density(rho)"], lambda e: uf("np.real", R, tr(uf("np.linalg.matrix_power[2]", Arr, e["rho"]))), "purity == Re Tr(rho^2)"),
 }
